@@ -239,7 +239,26 @@ def _subst(e, D, TAIL, T, extra=None):
     return e
 
 
+_FOLD = {"TAIL": None, "T": None}
+
+
+def _fold_lens(e):
+    """len(<window of the tail>) and len(<window of D>) as end - start"""
+    TAIL, T = _FOLD["TAIL"], _FOLD["T"]
+    if not isinstance(e, tuple) or TAIL is None:
+        return e
+    if len(e) == 3 and e[0] == "call" and e[1] == SLICE_LEN and len(e[2]) == 1:
+        x = e[2][0]
+        for base, full in ((TAIL, C(T)), (("param", "D"), None)):
+            w = layout.window(x, base) or layout.window(_peel(x), base)
+            if w is not None and (x != base):
+                hi = w[1] if w[1] is not None else (full if full is not None else ("call", SLICE_LEN, (base,)))
+                return ("bin", "Sub", _fold_lens(hi), _fold_lens(w[0]))
+    return tuple(_fold_lens(y) if isinstance(y, tuple) else y for y in e)
+
+
 def _lin(e, env):
+    e = _fold_lens(e)
     saved, panics.SYMLEN[0] = panics.SYMLEN[0], None
     try:
         c, d = panics.lin(e, env)
@@ -491,6 +510,7 @@ def tail_windows(ctx, F):
         ctx.missing(r, "Generator::TAIL_SIZE value (got %s)" % sorted(map(str, tvals)), cfg=F.key)
         return
     T = tvals.pop()
+    _FOLD["TAIL"], _FOLD["T"] = TAIL, T
     env = envs[0][1]
     bad = []
     covered = {}
@@ -574,6 +594,7 @@ def prologue_windows(ctx, F, r="R-03.6"):
         return
     loops = [p for p in paths if p.end == "loop"]
     hdrs = {p.blocks[-1] for p in loops}
+    _FOLD["TAIL"], _FOLD["T"] = TAIL, T
     DATA = P(2)
     DP = ("param", "D")
     bad = []
